@@ -145,6 +145,55 @@ func c14(r *report.Run) {
 				}
 			}
 		}
+		// one operand a literal: the literal is an int (or a float64), whatever its sibling is
+		for _, lit := range []struct {
+			text string
+			n    ref.Num
+		}{{"1", ref.Num{K: reflect.Int, U: 1}}, {"2", ref.Num{K: reflect.Int, U: 2}}, {"300", ref.Num{K: reflect.Int, U: 300}}, {"16777217", ref.Num{K: reflect.Int, U: 16777217}},
+			{"0.5", ref.Num{K: reflect.Float64, F: 0.5}}, {"9007199254740993", ref.Num{K: reflect.Int, U: 9007199254740993}}} {
+			sample := map[string]interface{}{"a": ga[0].GoValue()}
+			cfg := conf.New(sample)
+			for _, op := range ops {
+				for _, flip := range []bool{false, true} {
+					src, wit := "a "+op+" "+lit.text, fmt.Sprintf("%s %s literal %s", ka, op, lit.text)
+					if flip {
+						src, wit = lit.text+" "+op+" a", fmt.Sprintf("literal %s %s %s", lit.text, op, ka)
+					}
+					illTyped := op == "%" && (ref.KindFloat(ka) || ref.KindFloat(lit.n.K))
+					for _, mode := range []string{"typed", "untyped"} {
+						var prog *vm.Program
+						var err error
+						var pt reflect.Type
+						if mode == "typed" {
+							prog, err = expr.Compile(src, expr.Env(sample))
+							if tree, perr := parser.Parse(src); perr == nil {
+								pt, _ = checker.Check(tree, cfg)
+							}
+						} else {
+							prog, err = expr.Compile(src)
+						}
+						progs++
+						if err != nil {
+							if !(illTyped && (mode == "typed" || ref.KindFloat(lit.n.K))) { // a float literal under % is a static mismatch without Env too
+								order++
+								r.Report(report.Violation{Sub: mode, Kind: "rejected", Witness: wit, Order: order, Detail: map[string]interface{}{"source": src, "error": err.Error()}})
+							}
+							continue
+						}
+						if mode == "typed" && illTyped {
+							continue
+						}
+						for _, a := range ga {
+							want := ref.Arith(op, a, lit.n)
+							if flip {
+								want = ref.Arith(op, lit.n, a)
+							}
+							check(mode, src, prog, map[string]interface{}{"a": a.GoValue()}, want, pt, wit, a.String())
+						}
+					}
+				}
+			}
+		}
 		for _, kb := range ref.Kinds {
 			gb := c14Grid(kb)
 			sample := map[string]interface{}{"a": ga[0].GoValue(), "b": gb[0].GoValue()}
